@@ -168,7 +168,7 @@ def task_spec(draw, encodings=ENCODINGS, minmax=("min", "max"), families=FAMILIE
         n_terms = 1
         if weighted > 0 and draw(_f(0.0, 1.0)) < weighted:
             # several weighted objectives over any kind of variables (not only a MultiObjectiveVariable)
-            n_terms = draw(st.integers(2, 3))
+            n_terms = draw(st.integers(1, 3))        # 1 = a one-element list of objectives with its one weight
             spec["weights"] = [draw(st.sampled_from([0.0, 0.3, 0.5, 1.0, 2.0])) for _ in range(n_terms)]
         if len(vs) >= 2 and draw(st.integers(0, 5)) == 0:
             # variables whose names were left at the library default ("var") or that share one name: accepted by
